@@ -301,7 +301,8 @@ fn main() {
                             queries += 1;
                             let mut got: Vec<String> = items.iter().map(|i| format!("{}:{:?}", i.label, i.kind)).collect();
                             got.sort();
-                            let exp: Vec<String> = case["fields"].as_array().map(|a| a.iter().map(|x| format!("{}:Field", x.as_str().unwrap())).collect()).unwrap_or_default();
+                            // (a value of the library's record R - `acc.mk().f` - has the single field f)
+                            let exp: Vec<String> = if t.tg >= 2000 { vec!["f:Field".to_string()] } else { case["fields"].as_array().map(|a| a.iter().map(|x| format!("{}:Field", x.as_str().unwrap())).collect()).unwrap_or_default() };
                             if got != exp {
                                 local.push(json!({"kind": "mismatch", "prop": "C18",
                                     "features": {"what": "record fields", "ctx": t.ctx.join("/"), "inner": t.ctx.last().cloned().unwrap_or_default(),
@@ -344,7 +345,7 @@ fn main() {
                     let items = case["items"].as_array().cloned().unwrap_or_default();
                     let type_base = items.iter().position(|it| it["k"] == "type").map(|i| 1001 + i as u64);
                     let is_fn_item = |g: u64| g >= 1001 && g < 1100 && items.get((g - 1001) as usize).map_or(false, |it| it["k"] == "fn");
-                    let is_ctor = |g: u64| type_base.map_or(false, |b| g == b + 100 || g == b + 200) || (g >= 2000 && (g % 1000 == 3 || g % 1000 == 4));
+                    let is_ctor = |g: u64| type_base.map_or(false, |b| g == b + 100 || g == b + 200) || (g >= 2000 && (g % 1000 == 3 || g % 1000 == 4 || g % 1000 == 9));
                     for t in prog.toks.iter() {
                         // expectation: Some(Some(tag)) / Some(None) = must not be highlighted / None = not decided here
                         let exp: Option<Option<&str>> = match t.r.as_str() {
@@ -353,7 +354,7 @@ fn main() {
                                 // specification leaves inaccessible names undecided, as for go-to-definition
                                 if t.tg == 0 && t.r == "qref" { None }
                                 else if t.tg == 0 { Some(None) }
-                                else if is_fn_item(t.tg) || (t.tg >= 2000 && (t.tg % 1000 == 1 || t.tg % 1000 == 2)) { Some(Some("Function")) }
+                                else if is_fn_item(t.tg) || (t.tg >= 2000 && (t.tg % 1000 == 1 || t.tg % 1000 == 2 || t.tg % 1000 == 12)) { Some(Some("Function")) }
                                 else if is_ctor(t.tg) { Some(Some("Constructor")) }
                                 else if t.tg < 1000 { None }          // locals: type-dependent, decided by the Typing programs
                                 else { Some(None) }
